@@ -20,6 +20,11 @@ CLAIMED = {
         text="Ball/Sphere/Box norm and component bounds, full-period azimuth and full-range cosine draws, Translation centroid = u@cell with u uniform in [0,1)^3, rigidity of Translation/Rotation/TranslationRotation and centre-of-mass conservation of Rotation (k=3 explicit rows), Haar Euler angles in degrees, composite = sum of parts each called once in order; Isotropic = positive scalar*identity (log-uniform), Shape volume preserving, default-mask gradients symmetric positive definite, identity where masked out, proposals symmetric under negation of the draws. All values symbolic, exact reals.",
         note="scipy expm and ase euler_rotate/__getitem__ are trusted contracts (pyvc/models/geom_model.py); group size bounded to 3 explicit rows; null sets of half-open supports excluded; inverse-rotation Euler identity trusted; IsotropicDeformation requires max_value <= 700 (math.exp overflow).",
         design="§7 C10"),
+    "C14": dict(
+        technique="contract-based deductive verification: real Verlet.integrate / maxwell_boltzmann_distribution / HamiltonianDisplacementMove.attempt_displacement executed symbolically (k=2 explicit atoms, forces uninterpreted functions of all coordinates); reversibility and velocity-Verlet form by rational-function certificates (sympy cancel, denominators proved non-zero by z3); native bounded stand-in",
+        text="Integrate, negate momenta, integrate again returns the start state exactly (1 and 2 steps, both constraint branches; any step count by the group identity since the loop body is proved to be the same map every iteration); one step is exactly half kick - drift - half kick with dt*fs; every write is routed through set_positions/set_momenta with the integrator's flag; momentum refresh = standard normal * sqrt(m kT) with one draw per component, forced refresh gives kinetic temperature kT*r/(r+1e-15); the kinetic reference is taken after the refresh and before the integration.",
+        note="k=2 atoms (bounded in atom count, unbounded in values); no constraints; second-order energy error is NOT proved (asymptotic) - only the bounded native measurement; lifting to n steps uses flip.Phi^n.flip=Phi^-n (Axioms.lean); A2/A3.",
+        design="§7 C14"),
 }
 PENDING_REASON = "check not yet registered in this revision (under construction; see DESIGN.md §0/§7 for the plan)"
 
